@@ -455,6 +455,7 @@ func (i *interpreter) decide(cond *Term, site string) bool {
 			c = tc.Not(cond)
 		}
 		i.pc = append(i.pc, c)
+		i.tc.learn(c)
 		i.decisions = append(i.decisions, take)
 		if n == len(i.prefix)-1 {
 			// the last, flipped, decision has never been checked for feasibility
@@ -480,6 +481,7 @@ func (i *interpreter) decide(cond *Term, site string) bool {
 				c = tc.Not(cond)
 			}
 			i.pc = append(i.pc, c)
+			i.tc.learn(c)
 			i.decisions = append(i.decisions, take)
 			return take
 		}
@@ -504,6 +506,7 @@ func (i *interpreter) decide(cond *Term, site string) bool {
 		c = tc.Not(cond)
 	}
 	i.pc = append(i.pc, c)
+	i.tc.learn(c)
 	i.decisions = append(i.decisions, take)
 	return take
 }
@@ -551,6 +554,7 @@ func (i *interpreter) assume(c *Term, what string) {
 		panic(abort{"assume-false", what})
 	}
 	i.pc = append(i.pc, c)
+	i.tc.learn(c)
 	if i.model != nil {
 		if v := i.tc.Eval(c, i.model, i.evalMemo()); v != nil && v.Sign() != 0 {
 			return
